@@ -249,13 +249,53 @@ def ai_oracle_case(tag: bytes):
     return None
 
 
+LATE_ENUM = r"""
+import importlib, json, sys
+sys.path.insert(0, sys.argv[1])
+import logging; logging.disable(logging.CRITICAL)
+ma, ca, mb, cb = sys.argv[2:6]
+from richchk.transcoder.richchk.transcoders.helpers.richchk_enum_transcoder import RichChkEnumTranscoder as X
+A = getattr(importlib.import_module(ma), ca)
+first = next(iter(A))
+assert X.decode_enum(first.id, A) is first          # the first lookup of the process
+B = getattr(importlib.import_module(mb), cb)         # an enum that is only loaded afterwards
+bad = []
+for m in B:
+    try:
+        if not X.contains_enum_by_id(m.id, B) or X.decode_enum(m.id, B) is not m or X.encode_enum(m) != m.id:
+            bad.append(m.name)
+    except Exception as ex:
+        bad.append(m.name + ":" + type(ex).__name__)
+print(json.dumps(bad[:5]))
+"""
+
+
+def late_enum_cases(es):
+    """every enum used for the first time AFTER another enum's first lookup, in a fresh interpreter each"""
+    import subprocess
+    from concurrent.futures import ThreadPoolExecutor
+    items = sorted((E.__module__, E.__name__) for E, _ in es.values())
+    jobs = [(items[(i + 1) % len(items)], b) for i, b in enumerate(items)]
+
+    def one(j):
+        (ma, ca), (mb, cb) = j
+        p = subprocess.run(["/venv/bin/python", "-c", LATE_ENUM, str(vlib.SRC), ma, ca, mb, cb], stdout=subprocess.PIPE,
+                           stderr=subprocess.PIPE, text=True, timeout=120, env={"PATH": "/usr/bin:/bin", "PYTHONHASHSEED": "0"})
+        try:
+            return j, json.loads(p.stdout.strip().splitlines()[-1])
+        except Exception:  # noqa
+            return j, ["process failed: " + p.stderr[-200:]]
+    with ThreadPoolExecutor(max_workers=vlib.NCPU) as ex:
+        return list(ex.map(one, jobs))
+
+
 def run(ck: vlib.Check):
     tier = ck.tier
     ck.rule = ("flags: every number of the field width and every boolean vector, implementation vs extracted model "
                "and vs the property itself; enums: ids 0..limit for every RichChkEnum; hit points: all raw below "
                "2^14 (quick) / 2^20 (thorough) + powers-of-two/ten boundaries + stratified sample over u32; AI tags: "
                "grammar over all UTF-8 length classes incl. invalid. Distinct = distinct (codec, input).")
-    st = ck.regen(["flags", "enums"])
+    st = ck.regen(["flags", "enums", "scalars"])
     with vlib.build_lock():
         built = ck.build(["proofs/C12_proofs.vo", "model/RunC12.vo"])
         props_ok = built and ck.check_props("props/C12.v")
@@ -292,6 +332,12 @@ def run(ck: vlib.Check):
         ck.evaluations += enum_limit + len(rows)
         if bad:
             ck.violation(f"enum codec {name} is not exact: {bad}", {"kind": "enum", **bad}, True)
+    for (first, (mb, cb)), bad in late_enum_cases(es):
+        ck.evaluations += 1
+        ck.note_case(f"late-enum:{first[1]}->{cb}")
+        if bad:
+            ck.violation(f"enum {cb}, first used after {first[1]} had been looked up, is not exact: members {bad}",
+                         {"kind": "late-enum", "first": list(first), "enum": [mb, cb], "members": bad}, True)
     hv = hp_values(ck.rng, tier)
     for raw in hv:
         bad = hp_oracle_case(raw)
@@ -350,6 +396,43 @@ def run(ck: vlib.Check):
         ck.exhaustive = True
     elif drv_ok:
         ck.notes.append("flag translator failed; correspondence skipped, property evaluated on the implementation only")
+    if drv_ok:
+        scalar_correspondence(ck, hv, tags)
+
+
+def scalar_correspondence(ck, hv, tags):
+    """hit points and AI scripts: the hand models of coq/model/Scalars.v against the implementation"""
+    from decimal import Decimal
+    from richchk.model.richchk.trig.enums.ai_script import KnownAiScript
+    from richchk.model.richchk.unis.unit_id import UnitId
+    from richchk.transcoder.richchk.transcoders.helpers.ai_script_transcoder import AiScriptTranscoder as A
+    from richchk.transcoder.richchk.transcoders.helpers.unit_hitpoints_transcoder import UnitHitpointsTranscoder as H
+    members = [m.value for m in KnownAiScript]
+    cases, expect = [], []
+    for raw in hv:
+        cases.append(f"(5 {raw})")
+        d = H.decode_hitpoints(UnitId.TERRAN_MARINE, raw) * 10 ** 8
+        expect.append(str(int(d)) if d == int(d) else "inexact")
+        units = raw * 390625 + (raw % 7) * 1000     # also values that are NOT whole 1/256 units
+        cases.append(f"(6 {units})")
+        expect.append(str(H.encode_hitpoints(Decimal(units) / Decimal(10 ** 8))))
+    for tag in sorted(set(tags)):
+        n = struct.unpack("I", tag)[0]
+        cases.append(f"(7 {n})")
+
+        def dec():
+            s = A.decode(n)
+            for i, m in enumerate(members):
+                if s is m:
+                    return [0, i]
+            return [1, [ord(c) for c in s.name]]
+        r = impl_result(dec)
+        expect.append(T(r) if r[0] == 1 else f"(0 {r[1]})")
+    got = vlib.run_model("C12", cases)
+    mism = [(c, e, g) for c, e, g in zip(cases, expect, got) if e != g]
+    ck.corr_count("hit points + AI scripts: impl vs extracted model", len(cases), len(mism))
+    if mism:
+        ck.notes.append("first scalar model/impl mismatches: " + json.dumps(mism[:3]))
 
 
 FALLBACK_FIELDS = {
